@@ -13,7 +13,7 @@ NOT_YET = {
     'C13': 'SEMA unit under construction',
 }
 
-UNITS = ['types', 'sym', 'lex']
+UNITS = ['types', 'sym', 'lex', 'parser']
 
 PROPS = {
     'C20': dict(
